@@ -46,5 +46,9 @@ ObsTaskPut == (R.kind = "task_put" /\ ~Denied /\ ~TaskPutAllowed(R.cur, R.req)) 
    (R.status \in {400, 403, 404} /\ Rpcs = {} /\ ~R.changed)
 ObsExecDelete == (R.kind = "exec_delete" /\ ~Denied /\ ~ExecDeleteAllowed(R.cur, R.force)) =>
    (R.status \in {400, 403, 409} /\ ~R.changed)
-Report == PrintT(<<"case", tid, ObsEnforceFirst, ObsAlwaysEnforces, ObsDeniedNoEffect, ObsExecPut, ObsTaskPut, ObsExecDelete>>)
+\* listing across projects: rows of another project (not public) are returned only after the admin-only
+\* <resource>:list:all_projects rule was enforced and allowed
+ObsCrossProject == R.foreignReturned =>
+   \E j \in 1..Len(Ev) : Ev[j].k = "enforce" /\ Ev[j].ok /\ Ev[j].rule = R.rules[1] \o ":all_projects"
+Report == PrintT(<<"case", tid, ObsEnforceFirst, ObsAlwaysEnforces, ObsDeniedNoEffect, ObsExecPut, ObsTaskPut, ObsExecDelete, ObsCrossProject>>)
 =============================================================================
